@@ -127,7 +127,11 @@ impl Vm {
       Some(existing_package) => match existing_package.import(import) {
         Ok(module) => ImportResult::Loaded(module),
         Err(err) => match err {
-          ImportError::ModuleDoesNotExist => self.load_missing_module(existing_package, import),
+          // only the script's own package is backed by the files next to the script
+          ImportError::ModuleDoesNotExist if &*import.package() == SELF => {
+            self.load_missing_module(existing_package, import)
+          },
+          ImportError::ModuleDoesNotExist => ImportResult::NotFound,
           ImportError::PackageDoesNotMatch => panic!("Unexpected package mismatch"),
           _ => unreachable!(),
         },
